@@ -33,7 +33,9 @@ def nonce_source(ev):
     sm2_z256_rand_range does (32 bytes straight into the limbs, little-endian here) and must lie in [1, n-1]"""
     from sm2ref import n, G, mul
     out = bytes(ev.get("out", [])); op = ev["op"]
-    cands = [int.from_bytes(bytes(ev["cand"][i:i + 32]), "little") for i in range(0, len(ev.get("cand", [])), 32)]
+    # (either byte order of the draw is accepted: how the 32 bytes become a scalar is the implementation's business, that the scalar IS a draw is the property's)
+    raw = [bytes(ev["cand"][i:i + 32]) for i in range(0, len(ev.get("cand", [])), 32)]
+    cands = [int.from_bytes(b, "little") for b in raw] + [int.from_bytes(b, "big") for b in raw]
     try:
         if op in ("sm2_do_sign", "sm2_sign", "sm2_sign_fixlen"):
             r, s_ = (int.from_bytes(out[:32], "big"), int.from_bytes(out[32:64], "big")) if op == "sm2_do_sign" else two_ints(out)
@@ -45,7 +47,7 @@ def nonce_source(ev):
         return 0
     for i, k in enumerate(cands):
         if want(k):
-            return i + 1
+            return i % len(raw) + 1
     return 0
 
 
